@@ -30,6 +30,10 @@ RULE = ("per transport (mrp, companion, http, rtsp): every interleaving of 2 req
         "a request whose transmission raises (F: connection.send / transport.write / send processor) at every position "
         "of the 2-request scripts without device-originated message, randomly elsewhere; "
         "scripted listeners raise on their k-th call or always (plain, coroutine, bound method; the witness too); "
+        "a fifth transport `tunnel` = MRP over the AirPlay data stream (real DataStreamChannel.handle_received, "
+        "decode_protobufs, AirPlayMrpConnection) with 1..3 messages per data-stream frame; per transport 150 (thorough: "
+        "1500) PAIRS of protocol objects alive at once with the same identifiers in flight, their random scripts "
+        "interleaved at random, each judged on its own; "
         "MRP listener sets vary per script (the unfiltered witness on every type plus up to 5 subscriptions: several "
         "listeners per type, the same function / bound method / coroutine subscribed repeatedly for one type with "
         "disjoint filters, the same callable on several types); plus 400 (thorough: 4000) bare MessageDispatcher cases "
@@ -48,6 +52,8 @@ ASSUMPTIONS = [
     "answer; Companion: only a response frame (`_t`=3) can answer, an event or device request never does",
     "plain HTTP: the device answers the requests it received in order, each once; RTSP: only 2xx responses",
     "stop()/close() racing with waiters is outside the quantifier",
+    "tunnel: two messages for one identifier are never put into ONE data-stream frame (below event granularity); "
+    "HAP encryption of the data channel is bypassed (frames enter at channel.buffer / leave at channel.send)",
     "Companion responses that answer no outstanding request have no subscribers (only events can be listened "
     "to); they must merely not reach another caller",
 ]
@@ -58,7 +64,8 @@ TRUSTED = [
     "harness.core.vloop virtual-time loop",
 ]
 
-PROPS_FILES = ["PyatvModel/Props/C03.lean", "PyatvModel/Props/C03Rtsp.lean", "PyatvModel/Props/C03Disp.lean"]
+PROPS_FILES = ["PyatvModel/Props/C03.lean", "PyatvModel/Props/C03Rtsp.lean", "PyatvModel/Props/C03Disp.lean",
+               "PyatvModel/Props/C03Pair.lean"]
 KNOWN_SIG = "http-fifo:late-response-after-timeout"
 HTTP_WITNESS = "s,t0,s,rn:0"           # = PyatvModel.Props.C03.C03_http_counterexample
 TRANSPORTS = ["mrp", "companion", "http", "rtsp", "tunnel"]
@@ -1293,10 +1300,22 @@ def gen_cases(ctx):
             for evs in structured(transport, base, n, rng.fork("stagger", transport, n)):
                 cases.append((transport, base, evs, subs(evs)))
         r2 = rng.fork("random", transport)
-        for _ in range(ctx.scale(1000, 8000)):
+        for _ in range(ctx.scale(700, 8000)):
             b = 0 if transport != "companion" else r2.randint(0, 65536)
             evs = random_script(transport, b, r2)
             cases.append((transport, b, evs, subs(evs)))
+    # two protocol objects of one transport alive at once, same identifiers in flight on both
+    for transport in TRANSPORTS:
+        rp = rng.fork("pair", transport)
+        for _ in range(ctx.scale(150, 1500)):
+            b = 0 if transport != "companion" else rp.randint(0, 65536)
+            ea = random_script(transport, b, rp, nmax=3, maxlen=8)
+            eb = list(ea) if rp.chance(0.3) else random_script(transport, b, rp, nmax=3, maxlen=8)
+            order = ["A"] * len(ea) + ["B"] * len(eb)
+            rp.shuffle(order)
+            sa = random_subs(rp) if proto(transport) == "mrp" else None
+            sb = random_subs(rp) if proto(transport) == "mrp" else None
+            cases.append(("pair", b, {"t": transport, "a": ea, "b": eb, "order": "".join(order)}, (sa, sb)))
     # the dispatcher alone: subscription sets x messages
     r3 = rng.fork("disp")
     for _ in range(ctx.scale(400, 4000)):
@@ -1321,6 +1340,13 @@ def execute(cases):
                 except Exception as ex:
                     calls = [["raised:" + type(ex).__name__]]
                 results.append((transport, base, evs, calls, subs))
+                continue
+            if transport == "pair":
+                try:
+                    sa, aa, sb, ab = await run_pair(evs["t"], base, evs, subs)
+                except Exception as ex:
+                    sa, aa, sb, ab = [[("raised", type(ex).__name__)]], None, [], None
+                results.append((transport, base, evs, (sa, aa, sb, ab), subs))
                 continue
             try:
                 steps, ad = await run_script(transport, base, evs, subs)
@@ -1351,7 +1377,16 @@ def disp_oracle(subs_text, msgs_text, calls):
 def run(ctx, only=None):
     cases = only if only is not None else gen_cases(ctx)
     results = execute(cases)
-    lines = [("disp %s %s" % (split_subs(r[4])[0], r[2])) if r[0] == "disp" else model_line(r[0], r[1], r[2]) for r in results]
+    lines, where = [], []
+    for r in results:
+        where.append(len(lines))
+        if r[0] == "disp":
+            lines.append("disp %s %s" % (split_subs(r[4])[0], r[2]))
+        elif r[0] == "pair":
+            lines.append(model_line(r[2]["t"], r[1], r[2]["a"]))
+            lines.append(model_line(r[2]["t"], r[1], r[2]["b"]))
+        else:
+            lines.append(model_line(r[0], r[1], r[2]))
     answers = ctx.lean(lines)
     reported = {}
 
@@ -1362,7 +1397,29 @@ def run(ctx, only=None):
         if n < 3:
             ctx.fail(sig, case, observed, "see property C03", what)
 
-    for res, ans in zip(results, answers):
+    def judge(transport, base, evs, steps, ad, ans, case, prefix=""):
+        """one protocol object: correspondence with the model + the oracle"""
+        if ad is None:
+            impl = [sorted(":".join(map(str, t)) for t in s) for s in steps]
+        else:
+            impl = [canon_step(ad, e, s) for e, s in zip(evs, steps)]
+        model = canon_model(ans, transport)
+        for s in impl:
+            for t in s:
+                ctx.note("obs:" + t.split(":")[0].split("#")[0])
+        shown = ";".join(",".join(s) or "-" for s in impl)
+        if impl != model:
+            ctx.disagree(case, shown, ans, where=prefix + transport + " per-event outputs")
+        ctx.validated()
+        if ad is None:
+            ctx.fail(prefix + transport + ":harness-could-not-run", case, impl, "script runs", "real code raised in setup")
+            return impl
+        for sig, what in oracle(transport, base, evs, steps, ad, is_perm_script(transport, base, evs)):
+            report(sig if sig == KNOWN_SIG else prefix + sig, case, shown, what)
+        return impl
+
+    for res, at in zip(results, where):
+        ans = answers[at]
         if res[0] == "disp":
             _t, _b, msgs, calls, subs = res
             case = {"transport": "disp", "base": 0, "script": msgs, "subs": subs}
@@ -1380,6 +1437,17 @@ def run(ctx, only=None):
             for sig, what in disp_oracle(subs, msgs, calls):
                 report(sig, case, impl, what)
             continue
+        if res[0] == "pair":
+            _t, base, info, (sa, aa, sb, ab), subs = res
+            case = {"transport": "pair", "of": info["t"], "base": base, "script": show(info["a"]),
+                    "script2": show(info["b"]), "order": info["order"], "subs": subs[0], "subs2": subs[1]}
+            ctx.note("transport:pair-" + info["t"])
+            ctx.case(["pair", info["t"], base, case["script"], case["script2"], info["order"], subs[0], subs[1]],
+                     "AB" in info["order"] and "BA" in info["order"], sample=case)
+            judge(info["t"], base, info["a"], sa, aa, answers[at], case, prefix="pair-")
+            if ab is not None or sb:
+                judge(info["t"], base, info["b"], sb, ab, answers[at + 1], case, prefix="pair-")
+            continue
         transport, base, evs, steps, ad = res
         script = show(evs)
         case = {"transport": transport, "base": base, "script": script}
@@ -1390,25 +1458,10 @@ def run(ctx, only=None):
         ctx.note("requests:%d" % nreq)
         ctx.note("timeouts:%d" % min(3, sum(1 for e in evs if e[0] == "t")))
         ctx.note("len:%02d" % min(20, len(evs)))
-        if ad is None:
-            impl = [sorted(":".join(map(str, t)) for t in s) for s in steps]
-        else:
-            impl = [canon_step(ad, e, s) for e, s in zip(evs, steps)]
-        model = canon_model(ans, transport)
+        impl = judge(transport, base, evs, steps, ad, ans, case)
         outcomes = sorted(t for s in impl for t in s if not t.startswith("snt"))
         ctx.case([transport, base, script, case.get("subs")], nontrivial(evs),
                  sample=dict(case, observed=outcomes))
-        for s in impl:
-            for t in s:
-                ctx.note("obs:" + t.split(":")[0].split("#")[0])
-        if impl != model:
-            ctx.disagree(case, ";".join(",".join(s) or "-" for s in impl), ans, where=transport + " per-event outputs")
-        ctx.validated()
-        if ad is None:
-            ctx.fail(transport + ":harness-could-not-run", case, impl, "script runs", "real code raised in setup")
-            continue
-        for sig, what in oracle(transport, base, evs, steps, ad, is_perm_script(transport, base, evs)):
-            report(sig, case, ";".join(",".join(s) or "-" for s in impl), what)
 
 
 def widen(ctx):
@@ -1416,6 +1469,18 @@ def widen(ctx):
 
 
 def _rerun(case):
+    if case["transport"] == "pair":
+        info = {"t": case["of"], "a": parse(case["script"]), "b": parse(case["script2"]), "order": case["order"]}
+        res = execute([("pair", case["base"], info, (case.get("subs"), case.get("subs2")))])
+        sa, aa, sb, ab = res[0][3]
+        probs = []
+        for evs, steps, ad in ((info["a"], sa, aa), (info["b"], sb, ab)):
+            if ad is None:
+                probs.append(("pair-%s:harness-could-not-run" % case["of"], "setup raised"))
+            else:
+                probs += [(sig if sig == KNOWN_SIG else "pair-" + sig, what) for sig, what in
+                          oracle(case["of"], case["base"], evs, steps, ad, False)]
+        return probs
     if case["transport"] == "disp":
         res = execute([("disp", 0, case["script"], case["subs"])])
         return disp_oracle(case["subs"], case["script"], res[0][3])
@@ -1435,6 +1500,8 @@ def shrink(ctx, failure):
     """greedy removal of events (dispatcher cases: messages, then subscriptions) while the same
     sig still fails on the real code"""
     case = dict(failure["case"])
+    if case["transport"] == "pair":
+        return failure
     disp = case["transport"] == "disp"
 
     def items(c, field):
